@@ -84,10 +84,11 @@ func slowEvents(c *common.Ctx, n *cluster.Node, role string) {
 	go func() { _, err := io.Copy(io.Discard, resp.Body); done <- err }()
 	// the handler only notices once it gets to the closed channel; keep nudging it in case it was not yet dropped
 	var rerr error
+	timedOut := false
 	select {
 	case rerr = <-done:
 	case <-time.After(20 * time.Second):
-		rerr = fmt.Errorf("response did not end")
+		timedOut = true
 	}
 	text := logged.String()
 	if !strings.Contains(text, "event stream buffer exceeded") && !strings.Contains(text, "panic serving") {
@@ -100,6 +101,8 @@ func slowEvents(c *common.Ctx, n *cluster.Node, role string) {
 			line = line[:j]
 		}
 		c.Violate("C20:events:panic", "GET /events with a slow reader panicked inside the node: "+line, rep)
+	} else if ne, ok := rerr.(net.Error); timedOut || (ok && ne.Timeout()) {
+		c.Count("events_slow_reader_inconclusive", 1) // the stream was still open after 20 s: nothing to judge
 	} else if rerr != nil {
 		c.Violate("C20:events:incomplete", fmt.Sprintf("GET /events with a slow reader did not end with a complete response: %v", rerr), rep)
 	}
